@@ -160,6 +160,7 @@ impl Decoder for ServerAeadCodec {
                 let auth_id = &src[0..16];
                 if let Some(key) = auth_id::matching(auth_id, &self.keys)? {
                     if let Some(header) = encrypt::open_header(&key, src)? {
+                        check_header_length(&header)?;
                         let data = header[..header.len() - 4].to_vec();
                         let mut header = Bytes::from(header);
                         let version = header.get_u8();
@@ -207,6 +208,27 @@ impl Decoder for ServerAeadCodec {
             }
         }
     }
+}
+
+/// The opened request header is parsed with cursor reads that panic when it is shorter than its own fields say
+fn check_header_length(header: &[u8]) -> anyhow::Result<()> {
+    // version, body iv, body key, response byte, options, padding|security, reserved, command, port, address type
+    const FIXED: usize = 1 + 16 + 16 + 1 + 1 + 1 + 1 + 1 + 2 + 1;
+    if header.len() < FIXED {
+        bail!("request header too short: {} bytes", header.len());
+    }
+    let padding_len = (header[35] >> 4) as usize;
+    let address_len = match header[FIXED - 1] {
+        1 => 4,
+        2 if header.len() > FIXED => 1 + header[FIXED] as usize,
+        2 => bail!("request header too short: {} bytes", header.len()),
+        3 => 16,
+        other => bail!("unsupported address type: {}", other),
+    };
+    if header.len() < FIXED + address_len + padding_len + 4 {
+        bail!("request header too short: {} bytes", header.len());
+    }
+    Ok(())
 }
 
 impl TryFrom<&ServerConfig<SslConfig>> for ServerAeadCodec {
